@@ -4,6 +4,7 @@
 -/
 import XzVerif.Model.Proto
 import XzVerif.Model.CoderSmall
+import XzVerif.Model.LzmaResumeRun
 open XzVerif XzVerif.Proto XzVerif.Coder XzVerif.Vli
 
 def retStr (r : Ret) : String := toString r.toNat
@@ -14,6 +15,37 @@ def parsePair (s : String) : Option (Nat × Nat) :=
   match s.splitOn "," with
   | [a, b] => do let x ← a.toNat?; let y ← b.toNat?; pure (x, y)
   | _ => none
+
+/-- "<in>,<out>" or "<in>,<out>x<repeat>" -/
+def parseRep (s : String) : Option (List (Nat × Nat)) :=
+  match s.splitOn "x" with
+  | [p] => (parsePair p).map fun q => [q]
+  | [p, n] => do let q ← parsePair p; let k ← n.toNat?; pure (List.replicate k q)
+  | _ => none
+
+/-- FNV-1a 64 as in harness/c06_run.h `c06_hash` -/
+def fnv64 (bs : List UInt8) : UInt64 :=
+  bs.foldl (fun h b => (h ^^^ b.toUInt64) * 0x100000001b3) 0xcbf29ce484222325
+
+def hex16 (v : UInt64) : String :=
+  let ds := (List.range 16).map fun i => XzVerif.Proto.hexDigit ((v >>> (UInt64.ofNat (60 - 4 * i))).toNat % 16)
+  String.ofList ds
+
+/-- `lzr` op: the resumable LZMA1/LZMA2 raw decoder model (`LzmaR.runPieceX`) call by call over exact (avail_in, avail_out)
+    windows; prints "<ret>:<consumed>:<produced>" per call, then " | <last ret> <total_in> <out len>:<fnv64> overrun=<0|1>".
+    Stops after the first call that returns something other than LZMA_OK. -/
+def lzrRun (kind : XzVerif.Lzma2.Kind) (input : List UInt8) (pieces : List (Nat × Nat)) (start : XzVerif.LzmaR.RSt) : String :=
+  let rec go (ps : List (Nat × Nat)) (x : XzVerif.LzmaR.XRun) (acc : List String) : List String × XzVerif.LzmaR.XRun :=
+    match ps with
+    | [] => (acc.reverse, x)
+    | (a, b) :: t =>
+      if x.ret != .ok then (acc.reverse, x)
+      else
+        let y := XzVerif.LzmaR.runPieceX kind input x a b
+        go t y (s!"{retStr y.ret}:{y.r.s.inPos - x.r.s.inPos}:{y.r.s.produced - x.r.s.produced}" :: acc)
+  let (calls, x) := go pieces { r := start } []
+  let out := x.r.output
+  joinSp calls ++ s!" | {retStr x.ret} {x.r.s.inPos} {out.length}:{hex16 (fnv64 out)} overrun={if x.r.overrun then 1 else 0}"
 
 /-- The call loop of `next_run` in c06_small.c: explicit pieces, then (all, 4096) pieces; stops at ret ≠ OK, or after the explicit
     pieces when two consecutive calls did nothing. -/
@@ -126,6 +158,17 @@ def step (_ : Unit) (ws : List String) : Unit × String :=
         let recs := if v == some .streamEnd then joinSp (s.records.reverse.map fun (a, b) => s!"{a}/{b}") else "-"
         ((), joinSp calls ++ " | " ++ (if recs == "" then "-" else recs))
     | _, _ => ((), "bad-op")
+  | "lzr2" :: dict :: hx :: pieces =>
+    match dict.toNat?, bytesOfHex hx, (pieces.mapM parseRep).map List.flatten with
+    | some d, some bs, some ps => ((), lzrRun .lzma2 bs ps (XzVerif.LzmaR.initLzma2R d []))
+    | _, _, _ => ((), "bad-op")
+  | "lzr1" :: lc :: lp :: pb :: dict :: uncomp :: eopm :: hx :: pieces =>
+    -- uncomp = "u" for unknown size
+    match lc.toNat?, lp.toNat?, pb.toNat?, dict.toNat?, eopm.toNat?, bytesOfHex hx, (pieces.mapM parseRep).map List.flatten with
+    | some a, some b, some c, some d, some e, some bs, some ps =>
+      let u := if uncomp == "u" then none else uncomp.toNat?
+      ((), lzrRun .lzma1 bs ps (XzVerif.LzmaR.initLzma1R ⟨a, b, c⟩ d u (e != 0) []))
+    | _, _, _, _, _, _, _ => ((), "bad-op")
   | ["l2d", hx] =>
     match bytesOfHex hx with
     | some bs =>
